@@ -1310,22 +1310,33 @@ class Gen:
         return row
 
     def _unaliased(self, v):
-        """A VALUES item never carries an alias of the caller's (aliasing a value to be inserted means nothing)."""
+        """A VALUES item never carries an alias of the caller's, at any depth (aliasing a value to be inserted, or a part
+        of it, means nothing - and the classes that render their alias whatever the context says would show it)."""
+        if isinstance(v, list):
+            return [self._unaliased(x) for x in v]
         if not isinstance(v, dict):
             return v
         if v.get("t") == "var":
             o = self.env.heap[v["i"]]
-            if self.kind(o) == "term" and lib.state(o).get("alias") is not None:
-                return 1
+            if self.kind(o) == "term":
+                try:
+                    if any(lib.state(n).get("alias") is not None for n in o.nodes_()):
+                        return 1
+                except Exception:  # noqa: BLE001
+                    return 1
             return v
-        v = dict(v)
-        v.pop("alias", None)
-        if isinstance(v.get("kw"), dict) and "alias" in v["kw"]:
-            v["kw"] = {k: x for k, x in v["kw"].items() if k != "alias"}
         if v.get("t") == "meth" and v.get("m") == "as_":
             return self._unaliased(v["x"])
-        return v
-
+        out = {}
+        for k, x in v.items():
+            if k == "alias":
+                continue
+            if k == "kw" and isinstance(x, dict):
+                x = {kk: self._unaliased(xx) for kk, xx in x.items() if kk != "alias"}
+            elif isinstance(x, (dict, list)) and k not in ("tbl",):
+                x = self._unaliased(x)
+            out[k] = x
+        return out
     def r_insert(self, v, kd, ri, scope):
         if kd == "table":
             return {"a": self._row([self.var(ri)])}, [self.var(ri)]
